@@ -42,7 +42,7 @@ func TestWorker(t *testing.T) {
 			os.Exit(2)
 		}
 		spec := rf.Spec
-		spec.Replay = true
+		spec.Replay = !(rf.Crash && len(spec.Tape) == 0)
 		spec.Verbose = true
 		r := ExecRun(t, spec)
 		for _, l := range r.Text {
@@ -81,6 +81,15 @@ func TestWorker(t *testing.T) {
 		prop := os.Getenv("VERIF_PROP")
 		for i := 0; i < n; i++ {
 			fams := registry[prop]
+			if only := os.Getenv("VERIF_FAM"); only != "" {
+				var sel []Family
+				for _, f := range fams {
+					if f.Name == only {
+						sel = append(sel, f)
+					}
+				}
+				fams = sel
+			}
 			fam := fams[i%len(fams)]
 			r := ExecRun(t, RunSpec{Prop: prop, Fam: fam.Name, Seed: mix64(base, uint64(i))})
 			fmt.Printf("%s %s %d %016x %d %d", prop, fam.Name, i, r.Hash, r.Steps, len(r.Viol))
